@@ -981,6 +981,20 @@ theorem inverts_forward_keyword (S : Sym α) (ck : ChangeKind) (cum : CumKind) (
 
 end keyword
 
+/-! ### the variant broadcast rule used when `initial` carries fewer variants than the change series -/
+
+/-- while supplied variants last, receiving variant `j` takes supplied variant `j` -/
+theorem pickVariant_lt {β : Type} (l : List β) (j : Nat) (h : j < l.length) : pickVariant l j = l[j]? := by
+  unfold pickVariant
+  have : min j (l.length - 1) = j := by omega
+  rw [this]
+
+/-- afterwards every receiving variant takes the LAST supplied one (not the first) -/
+theorem pickVariant_ge {β : Type} (l : List β) (j : Nat) (h : l.length ≤ j + 1) : pickVariant l j = l.getLast? := by
+  unfold pickVariant
+  have : min j (l.length - 1) = l.length - 1 := by omega
+  rw [this, List.getLast?_eq_getElem?]
+
 /-! ## Non-vacuity: the hypotheses are met by concrete non-trivial values -/
 
 /-- a quarterly series `1, 2, 4, …` (no missing values, non-zero, positive) over ℚ -/
@@ -1013,5 +1027,7 @@ example : ∀ t x, exSerR.get t = some x → 0 < x := by
 /-- the model computes: pct of `1, 2, 4` at lag 1 is `100, 100` -/
 example : (change exSym .pct (.by_ (-1)) (Ser.ofCells .Q 8080 #[some 1, some 2, some 4])).toOption.map
     (fun o => (o.lo, o.cells)) = some (8081, [some 100, some 100]) := by decide +kernel
+
+example : pickVariant [10, 20] 2 = some 20 ∧ pickVariant [10, 20] 0 = some 10 ∧ pickVariant ([] : List Nat) 1 = none := by decide
 
 end IrisVerif.C13
